@@ -21,7 +21,7 @@ func init() {
 		stubs: []string{"the goroutine scheduler (which task runs next) is the simulator's; nothing else is stubbed"},
 		runs: []engineRun{{
 			spec: engineSpec{name: "c14", race: true}, label: "c14-race",
-			quickRuns: 1200, quickDL: 75 * time.Second, thorRuns: 60000, thorDL: 28 * time.Minute,
+			quickRuns: 900, quickDL: 70 * time.Second, thorRuns: 60000, thorDL: 28 * time.Minute,
 			description: "race-detector build, schedules from the tape",
 		}},
 	}
